@@ -6,12 +6,15 @@ import HealSparse.Model.Api
 import HealSparse.Model.Valid
 import HealSparse.Model.PackedDispatch
 import HealSparse.Generated.OpsTable
+import HealSparse.Model.ApiRes
+import HealSparse.Model.Moc
 import HealSparse.Model.Text
 namespace HS
 
 structure World where
   pool : List (String × MapObj) := []
   packed : PackedWorld := {}
+  mocs : List (String × List Nat) := []
 
 def World.get? (w : World) (n : String) : Option MapObj := (w.pool.find? (·.1 == n)).map (·.2)
 def World.put (w : World) (n : String) (m : MapObj) : World :=
@@ -205,6 +208,44 @@ def stepArgs (w : World) (op : String) (a : Args) : World × String :=
         match apiMultiOp row maps with
         | .ok m => (w.put (a.getD "r" "tmp") m, "ok")
         | .error e => (w, errLine e)
+  | "deg" => withMap w a fun m =>
+    match a.nat? "ord" with
+    | none => (w, "bad-op:ord")
+    | some ord =>
+      let wm? : Option (Option MapObj) := match a.get? "w" with
+        | none => some none
+        | some n => (w.get? n).map some
+      match wm? with
+      | none => (w, "bad-op:no-such-map")
+      | some wm =>
+        match apiDegrade m ord (a.getD "red" "mean") wm with
+        | .ok r => (w.put (a.getD "r" "tmp") r, "ok")
+        | .error e => (w, errLine e)
+  | "upg" => withMap w a fun m =>
+    match a.nat? "ord" with
+    | none => (w, "bad-op:ord")
+    | some ord =>
+      match apiUpgrade m ord with
+      | .ok r => (w.put (a.getD "r" "tmp") r, "ok")
+      | .error e => (w, errLine e)
+  | "moc" => withMap w a fun m =>
+    match validPixels m.c m.vc m.st with
+    | none => (w, errLine .index)
+    | some vp =>
+      if vp.isEmpty then (w, errLine .value) else
+      let u := mocWrite m.spord m.covord (vp.map Int.toNat)
+      ({ w with mocs := (a.getD "f" "f", u) :: w.mocs.filter (·.1 != a.getD "f" "f") }, showNats u)
+  | "mocread" =>
+    match (w.mocs.find? (·.1 == a.getD "f" "f")).map (·.2), a.nat? "covord" with
+    | some u, some co =>
+      let (mo, ps) := mocRead u
+      (match apiMakeEmpty co mo (.plain .bool) none [] with
+       | .ok e =>
+         (match apiUpdate e "replace" ps (some [.bool true]) true with
+          | .ok m => (w.put (a.getD "r" "tmp") { m with cache := none }, "ok")
+          | .error er => (w, errLine er))
+       | .error er => (w, errLine er))
+    | _, _ => (w, "bad-op:no-such-map")
   | "vals" => withMap w a fun m => (w, showVals ((List.range m.npix).map m.abs))
   | "get" => withMap w a fun m =>
     let pix? : Option (List Nat) :=
@@ -216,9 +257,13 @@ def stepArgs (w : World) (op : String) (a : Args) : World × String :=
           else some ((List.range ((hi - lo + st - 1) / st)).map fun i => lo + i * st)
         | _ => none
       | none => parseNats (a.getD "pix" "_")
+    let pix? : Option (Option (List Nat)) := match a.nat? "nsord" with
+      | none => pix?.map some
+      | some o => if o < m.spord then some none else pix?.map fun l => some (l.map (· >>> (2 * (o - m.spord))))
     match pix? with
     | none => (w, "bad-op:pix")
-    | some pix => match apiGet m pix with
+    | some none => (w, errLine .value)
+    | some (some pix) => match apiGet m pix with
       | .ok vs =>
         if a.flag "vm" then (w, showBits (vs.map m.vc.valid)) else (w, showVals vs)
       | .error e => (w, errLine e)
